@@ -8,4 +8,4 @@ package main
 // every request goroutine and may only be touched while service.mutex is held; the mutex is released on every
 // path and never unlocked when not held. activeBuild has its own mutex for its plugin/callback state.
 //@ protect service-tables C20: type=serviceType ; fields=callbacks,activeBuilds,nextRequestID ; mutex=mutex ; in=main
-//@ protect active-build-state C20: type=activeBuild ; fields=rebuildWaitGroup,withinRebuildCount,didGetCancel ; mutex=mutex ; in=main
+//@ protect active-build-state C20: type=activeBuild ; fields=rebuildWaitGroup,withinRebuildCount,didGetCancel,ctx ; mutex=mutex ; in=main
